@@ -26,8 +26,8 @@ CHECKS = {
  'C01': {
   'text': 'Inductive safety step of the SDO server on the real sources: server state, transfer buffer, object contents and one whole frame (command byte, dlc, payload) symbolic under a written-down representation invariant; '
           'all cbmc memory-safety / arithmetic / unwinding checks on, invariant re-established, bounded number of responses, no fatal error. One discharged step covers frame histories of any length. '
-          'Block size scaled to N in {2,4} (thorough 2,3,4,6), one or two servers, 12 object kinds. The bounded-history harnesses of C02..C20 run with the same built-in checks.',
-  'note': 'invariant sdo_inv.h (too weak => counterexample replayed natively; too strong => vacuity witnesses fail); block transfers at the production block size 127 outside the bound; dictionary structure = the template family; service steps other than SDO are covered by the per-property harnesses',
+          'Block size scaled to N in {2,4} (thorough 2,3,4,6), one or two servers, 12 object kinds. Plus a safety sweep: the arbitrary-state step harnesses of LSS (every command specifier), NMT gating (every input class), RPDO/SYNC, PDO configuration, heartbeat consumer, EMCY, SDO client, SYNC configuration and the preemptive timer are re-run with only the built-in checks of cbmc, unwinding assertions and the fatal-error counter deciding.',
+  'note': 'safety sweep instances ignore the functional oracles of their harness (those belong to C09..C19); invariant sdo_inv.h (too weak => counterexample replayed natively; too strong => vacuity witnesses fail); block transfers at the production block size 127 outside the bound; dictionary structure = the template family; service steps other than SDO are covered by the per-property harnesses',
  },
  'C02': {
   'text': 'Reference SDO client in the harness drives the real server through CONodeProcess: expedited download + read back of 8/16/32-bit and node-id-relative objects, segmented download of every size 1..21 (thorough ..35) to a domain, '
@@ -35,8 +35,8 @@ CHECKS = {
   'note': 'size per instance concrete (keeps every command byte concrete for cbmc), data symbolic; loss of the final segment of a block (recoverable only by client time-out) excluded; payload longer than an unannounced object excluded',
  },
  'C03': {
-  'text': 'Reference client reassembles segmented and block uploads of domain and string objects of every size 1..21 (thorough ..35): block sizes 1, 2, 3, 127 (clamped), every partial-acknowledge pattern of up to two partial acks per transfer, block size change at complete acknowledges; contents symbolic; assembled bytes, announced size, sequence numbers, c-bit, n-field, unchanged object checked.',
-  'note': 'acknowledge patterns and sizes enumerated concretely by the driver, data symbolic; new block size inside a PARTIAL acknowledge not exercised (server keeps the old size, stated in DESIGN.md appendix B)',
+  'text': 'Reference client reassembles segmented and block uploads of domain and string objects of every size 1..21 (thorough ..35): block sizes 1, 2, 3, 127 (clamped), every partial-acknowledge pattern of up to two partial acks per transfer, block size change at complete acknowledges and inside partial acknowledges; contents symbolic; assembled bytes, announced size, sequence numbers, c-bit, n-field, unchanged object checked.',
+  'note': 'acknowledge patterns and sizes enumerated concretely by the driver, data symbolic; whether a block size announced inside a PARTIAL acknowledge applies to the repeated block is unconstrained (the server keeps the old size), the data must be exact either way',
  },
  'C04': {
   'text': 'sdo_lookup: COSdoCheck+COSdoGetObject with a fully symbolic 24-bit multiplexer and symbolic R/W flags on all application entries against a linear reference lookup (existence, access right, abort codes 0602 0000h / 0609 0011h / 0601 0001h / 0601 0002h). '
@@ -44,7 +44,7 @@ CHECKS = {
   'note': 'type-specific abort codes (0609 0030h, 0604 004xh) are checked with the owning objects in C11/C14/C15/C16; dictionaries beyond the template family outside',
  },
  'C05': {
-  'text': 'From an ARBITRARY server state of each phase under the invariant (established inductive by C01), a client abort (or NMT reset communication) followed by a fresh conforming transfer of each mode (expedited, segmented and block, both directions, incl. objects of at most 4 byte on domain/string) yields the reference outcome with exact data. AG EF idle by induction instead of exploration.',
+  'text': 'From an ARBITRARY server state of each phase under the invariant (established inductive by C01), a client abort (or NMT reset communication; or, from any idle state with arbitrary left-overs, nothing) followed by a fresh conforming transfer of each mode (expedited, segmented and block, both directions, incl. objects of at most 4 byte on domain/string) yields the reference outcome with exact data. AG EF idle by induction instead of exploration.',
   'note': 'same reference client as C02/C03; N=2, domain 14 byte',
  },
  'C09': {
@@ -70,19 +70,19 @@ CHECKS = {
   'note': 'consumer times 1..5 ticks at 1 kHz; 4 entries outside the bound; re-pointing an ACTIVE entry to another node with non-zero time is only required to keep the chain invariant (DESIGN appendix B)',
  },
  'C12': {
-  'text': 'tpdo_bmc: one TPDO on a whole node with the real timer; 7 mappings (1..4 objects of 1/2/3/4 bytes incl. 3-byte fields and a full 8-byte frame) with symbolic object values; 42 operation sequences (thorough + all 1024 sequences over {trigger, tick, object write, event-time write} of length 5) over {trigger, changed / unchanged write of an asynchronous mapped object, tick, SYNC, NMT start/stop/pre-op, SDO write event time / inhibit time, COB-ID invalidate / validate}; '
+  'text': 'tpdo_bmc: one TPDO on a whole node with the real timer; 7 mappings (1..4 objects of 1/2/3/4 bytes incl. 3-byte fields and a full 8-byte frame) with symbolic object values; 42 operation sequences (thorough + all 1024 sequences over {trigger, tick, object write, event-time write} of length 5) over {trigger, changed / unchanged write of an asynchronous mapped object, tick, SYNC, NMT start/stop/pre-op, SDO write event time / inhibit time, COB-ID invalidate / validate, transmission type rewritten between synchronous and event-driven while invalid}; '
           'inhibit 0..3 ms, event 0..3 ms, types 1,2,3,240,254,255. Every emission (tick, identifier, dlc, little-endian data) is compared with a reference model of the trigger / inhibit / event / n-th-SYNC rules (inhibit first on ties); nothing is sent outside OPERATIONAL or with an invalid COB-ID.',
   'note': 'times and operation kinds concrete per instance, data symbolic; first event-timer arming after entering OPERATIONAL follows the code (stagger by channel number, DESIGN appendix B); one TPDO channel; objects wider than 4 bytes outside',
  },
  'C13': {
-  'text': 'rpdo_step: 10 mappings (8/16/24/32-bit fields, dummies 0002h..0007h of each width, asynchronous-flagged objects) x channel tables (which of 2 channels are valid / synchronous, incl. a synchronous channel above an asynchronous or invalid one) x NMT mode; payload, dlc and all object contents symbolic. Sequences over {RPDO frame, SYNC, local write, neighbouring identifier} of length <= 3 (thorough: all 39). '
+  'text': 'rpdo_step: 10 mappings (8/16/24/32-bit fields, dummies 0002h..0007h of each width, asynchronous-flagged objects) x channel tables (which of 2 channels are valid / synchronous, incl. a synchronous channel above an asynchronous or invalid one) x NMT mode; payload, dlc and all object contents symbolic. Sequences over {RPDO frame, SYNC, local write, neighbouring identifier, NMT pre-operational / stop / start} of length <= 5 (thorough: all 39 over R/S/L up to 3). '
           'Oracle: model of the mapped objects (little-endian consecutive fields, dummies skip) + frame rule over every application variable and its guard words; synchronous RPDO applied exactly once at the next SYNC, SYNC without reception changes nothing, no effect outside OPERATIONAL or for another identifier.',
-  'note': 'frames shorter than the mapped length unconstrained (DESIGN appendix B); mappings enumerated, at most 4 mapping slots per channel in the template',
+  'note': 'a reception still waiting for its SYNC when OPERATIONAL is left is discarded (PDO communication starts afresh with each OPERATIONAL phase); frames shorter than the mapped length unconstrained (DESIGN appendix B); mappings enumerated, at most 4 mapping slots per channel in the template',
  },
  'C14': {
-  'text': 'pdocfg_step: ONE expedited SDO write to RPDO 0 / TPDO 0 COB-ID, type, mapping count or mapping entry 1..4 from an ARBITRARY stored configuration (COB-ID incl. valid bit, type, count 0..4, four mapping values all symbolic under the configuration invariant) with a fully symbolic 32-bit written value, in PRE-OP and OPERATIONAL. '
-          'Oracle: CiA 301 rule table (changes only while invalid, entries only while count 0, entry must name an existing mappable object with the right access - reference scan of the dictionary -, count <= entries and <= 8 bytes, extended / RTR refused), abort codes, refused => stored value unchanged, invariant preserved, and activation (entering OPERATIONAL) builds Map/Size/ObjNum exactly as stored with <= 8 bytes. Induction over write histories.',
-  'note': '4 mapping slots per PDO in the template (the 8-entry limit is exercised through the byte limit and count > 4 refusals); one channel per direction',
+  'text': 'pdocfg_step: ONE expedited SDO write to RPDO 0 / TPDO 0 COB-ID, type, mapping count or mapping entry 1..4 from an ARBITRARY stored configuration (COB-ID incl. valid bit, type, count, four - and in a second family eight - mapping values all symbolic under the configuration invariant) with a fully symbolic 32-bit written value, in PRE-OP and OPERATIONAL. '
+          'Oracle: CiA 301 rule table (changes only while invalid, entries only while count 0, entry must name an existing mappable object with the right access - reference scan of the dictionary -, count <= entries and <= 8 bytes, extended / RTR refused), abort codes, refused => stored value unchanged, invariant (<= 8 entries, <= 8 mapped bytes) preserved. Induction over write histories. That an accepted configuration takes effect exactly as stored is checked on activation for the enumerated mappings of C12 / C13.',
+  'note': 'activation of a SYMBOLIC mapping is outside (makes every mapped object pointer symbolic); one channel per direction',
  },
  'C16': {
   'text': 'sync_step: (a) one SDO write to 1005h / 1006h with stored 1005h (11-bit id, bit 30), stored 1006h, written value and a stale node error all symbolic at 100 Hz / 1 kHz / 1 MHz: verdict (0609 0030h on id change while producing, refusal of an unresolvable period with the previous value kept), stored value, producer started / stopped / re-timed; (b) COSyncUpdate identifier match with symbolic cached 1005h and symbolic 29-bit frame identifier; '
@@ -95,13 +95,13 @@ CHECKS = {
   'note': 'group sizes <= 8, <= 3 groups, <= 3 requests per sequence; a restart inside one driver call (torn write) is outside: the driver interface is one call per group',
  },
  'C19': {
-  'text': 'csdo_e2e: the real SDO client against a reference server in the harness: upload and download of 1,3,4,5,7,8,14,15 bytes (thorough up to 28) with symbolic payload; server conforming / aborting with a symbolic code at step j / silent from step j / unknown command / wrong toggle / oversized or foreign answer; each followed by a second transfer with a longer time-out after an idle gap. '
+  'text': 'csdo_e2e: the real SDO client against a reference server in the harness: upload and download of 1,3,4,5,7,8,14,15 bytes (thorough up to 28) with symbolic payload; server conforming / aborting with a symbolic code at step j / silent from step j / unknown command / wrong toggle / oversized or foreign answer; each followed by a second transfer with a longer time-out after an idle gap; a variant in which the completion callback itself starts a timer that must survive the end of the transfer. '
           'Oracle: callback exactly once with the right code, user buffer with red zones exact, bus frames exact (announced size, toggles, last-segment flag, n field), abort frame 0504 0000h on time-out, busy client refuses, timer pool occupancy restored. csdo_step: arbitrary BUSY download context with 32-bit symbolic Size (5..600) and Buf_Idx: next segment width min(7, Size-Buf_Idx), c-bit iff last, bytes from the right offset.',
   'note': 'e2e sizes enumerated, <= 4 segments; sizes up to 600 through the inductive segment step; one client; block transfer is not implemented by the client',
  },
  'C20': {
   'text': 'reset_equiv: on one real node (heartbeat producer, two heartbeat consumers, SYNC consumer/producer, EMCY, one TPDO with event/inhibit timers, SDO server, SDO client, LSS, application timer; real timer, pool 6) run a history H, then NMT reset communication, then probes P; then zero the node, put the post-H dictionary values back, CONodeInit + CONodeStart, and run the same probes. '
-          '21 histories (write 1017h, SYNC producer on, SYNC id change, TPDO event/inhibit timers armed, consumer configured/armed, open segmented download, open block upload, busy SDO client, LSS configuration state, EMCY set, application timer, NMT start/stop, a combined one) x 10 probe sequences (ticks, SDO uploads and stray segments, SYNC and old-id frames, NMT start + TPDO trigger, heartbeat + event count, LSS inquiry, client request + server answer, EMCY state) with symbolic heartbeat state, payloads and mapped value. '
+          '27 histories (inhibit time running at the reset, write 1017h, SYNC producer on, SYNC id change, TPDO event/inhibit timers armed, consumer configured/armed, open segmented download, open block upload, busy SDO client, LSS configuration state, EMCY set, application timer, NMT start/stop, a combined one) x 10 probe sequences (ticks, SDO uploads and stray segments, SYNC and old-id frames, NMT start + TPDO trigger, heartbeat + event count, LSS inquiry, client request + server answer, EMCY state) with symbolic heartbeat state, payloads and mapped value. '
           'Oracle: per probe step the multiset of frames (identifier, dlc, data), all callback counts, API results and NMT mode are equal in both runs; exactly one boot-up; RAM communication parameters unchanged by the reset; application timer keeps its schedule; timer pool occupancy = fresh + live application timers.',
   'note': 'only observable behaviour is compared, never internal state; frames of one step as a multiset (order of actions due on one tick is free); the error history 1003h is dictionary content and not compared; times concrete (2 ms), kinds concrete; reset node variant and API resets in the thorough tier',
  },
